@@ -22,6 +22,16 @@ pub mod stdspec {
         assert(r@ =~= s@);
     }
 
+    // <[T]>::clone_from_slice (copy_from_slice is specified by vstd): panics unless the lengths are equal (documented), then dst == src
+    pub assume_specification<T: Clone> [<[T]>::clone_from_slice] (dst: &mut [T], src: &[T])
+        requires old(dst)@.len() == src@.len()
+        ensures final(dst)@.len() == src@.len(), forall|k: int| 0 <= k < src@.len() ==> cloned(src@[k], #[trigger] final(dst)@[k]);
+    // for u8, a clone is a copy
+    pub broadcast proof fn axiom_cloned_u8(a: u8, b: u8)
+        requires #[trigger] cloned(a, b)
+        ensures a == b
+    { admit(); }
+
     // Rust language invariant: no slice is longer than isize::MAX octets
     pub broadcast proof fn axiom_slice_len_bound(s: &[u8])
         ensures #[trigger] s@.len() <= isize::MAX
@@ -30,5 +40,6 @@ pub mod stdspec {
     pub broadcast group group_std_axioms {
         axiom_cow_deref_u8,
         axiom_slice_len_bound,
+        axiom_cloned_u8,
     }
 }
